@@ -1640,6 +1640,44 @@ def task_translator_validation(scratch, tier, seed, logdir):
     return [ob.done()]
 
 
+def task_read_site_wiring(scratch, tier, seed, logdir):
+    """C02 / C01: what read_site hands out after the per-sample loop: Standard carries &self.counts;
+    Projected is projection.project_unchecked(&self.totals, &self.counts) (called chromosomes as the
+    source size, ALT counts as the source index) of the reader's own projection; the record is reset first."""
+    fns = fns_for(scratch, "sfs-core")
+    ob = Ob("read_site_wiring", ["input::site::Reader::read_site (after the sample loop)"], "the zero-iteration paths through the loop (the loop body is the Kani kernel harnesses' business); calls uninterpreted")
+    try:
+        fld = struct_fields(os.path.join(scratch.src, "core/src/input/site/reader.rs"), "Reader")
+        f = mir.find_fn(fns, r"site/reader\.rs>::read_site$")
+        paths = mir.Exec(f, [], max_paths=5000).run({"_1": ("ref", "$self"), "$self": V("reader", "U")})
+        seen = set()
+        C, T, P = fld["counts"], fld["totals"], fld["projection"]
+        base = r"site::reader::Reader::reset!mut0\(reader\)"
+        for p in paths:
+            if p.end != "return":
+                continue
+            r = show(p.ret)
+            names = [e[0] for e in p.state.events]
+            if names and not re.search(r"Reader::reset$", names[0]):
+                ob.fail("violation", "read_site does not start by resetting the per-record state: first call is " + names[0][:80])
+            if r.startswith("ctor:Read(ctor:Standard("):
+                seen.add("standard")
+                if not re.fullmatch(rf"ctor:Read\(ctor:Standard\(refto\(field\({base}, {C}\)\)\)\)", r):
+                    ob.fail("violation", "Standard does not carry the record's ALT counts (&self.counts): " + r[:160])
+            elif r.startswith("ctor:Read(ctor:Projected("):
+                seen.add("projected")
+                want = rf"ctor:Read\(ctor:Projected\(PartialProjection::project_unchecked\(field\(as_Some\(Option::<PartialProjection>::as_mut\(refto\(field\({base}, {P}\)\)\)\), 0\), refto\(field\({base}, {T}\)\), refto\(field\({base}, {C}\)\)\)\)\)"
+                if not re.fullmatch(want, r):
+                    ob.fail("violation", "Projected is not projection.project_unchecked(&self.totals, &self.counts): " + r[:260])
+        if not {"standard", "projected"} <= seen:
+            ob.fail("inconclusive", f"arms found: {sorted(seen)}")
+        ob.d["nonvacuous"] = {"standard", "projected"} <= seen
+        ob.d["queries"] += len(paths)
+    except (LookupError, ValueError, RuntimeError, KeyError, IndexError) as e:
+        ob.fail("inconclusive", f"translator: {type(e).__name__}: {e}")
+    return [ob.done()]
+
+
 def task_main_exit(scratch, tier, seed, logdir):
     """C10 / C16 / C17: main maps every Err of run() to a message on stderr and exit status 1."""
     fns = fns_for(scratch, "sfs-cli")
@@ -1724,6 +1762,7 @@ TASKS = {
     "error_before_output": task_error_before_output,
     "small_kernels": task_small_kernels,
     "translator_validation": task_translator_validation,
+    "read_site_wiring": task_read_site_wiring,
     "shape_closures": task_shape_closures,
 }
 
